@@ -8,7 +8,7 @@ an independent Python oracle written from the documentation:
     (config next to / above the working directory, found by search, --config,
     MOCKERY_CONFIG), observing the files it writes.
 All strings are handled as latin-1 decoded byte strings (1 char = 1 byte)."""
-import json, os, re, shutil, subprocess, time
+import json, os, re, shutil, subprocess, sys, time
 from common import *
 
 VARS = ["ConfigDir", "InterfaceDir", "InterfaceDirRelative", "InterfaceFile", "InterfaceName", "Mock",
@@ -28,6 +28,11 @@ MODH = "Cfg.Tmpl Harness.C11"
 
 def U(s):
     return s.encode("latin-1")
+
+
+def dbg(*a):
+    if os.environ.get("VERIF_DEBUG"):
+        print("[c11 %s]" % time.strftime("%H:%M:%S"), *a, file=sys.stderr, flush=True)
 
 
 def real(s):
@@ -126,6 +131,8 @@ def o_parse(text):
             else:
                 m = TOK.match(text, k)
                 if not m:
+                    if text[k] == "." and k + 1 >= n:
+                        raise TParse("unclosed action")
                     raise TUnsup("character %r in action" % text[k])
                 w = m.group(0)
                 toks.append(("pipe",) if w == "|" else (("field", w[1:]) if w[0] == "." else ("ident", w)))
@@ -229,6 +236,10 @@ def o_expand(text, vars, limit=64):
             return ("err", n, "parse")
         except TExec:
             return ("err", n, "exec")
+        except TUnsup:
+            if n >= CAP:                 # far beyond any pass the resolver makes: only "no success" is known
+                raise TDiverge()
+            raise
         if nxt == text:
             return ("ok", text, n)
         text, n = nxt, n + 1
@@ -395,7 +406,7 @@ def gen_structname(rng, vars_ok):
         return DEFAULTS["structname"], "default"
     if r < 0.45:                                         # self reference
         return rng.choice(["{{.StructName}}x", "x{{.StructName}}", "{{.StructName}}", "{{ .StructName }}",
-                           "{{.StructName}}{{.StructName}}", "a{{.StructName | lower}}", "{{.StructName | upper}}x",
+                           "a{{.StructName | lower}}", "{{.StructName | upper}}x",
                            "{{.StructName | base}}", "{{.StructName | trimSuffix \"x\"}}x", quote1("{{.StructName}}x")]), "self"
     return gen_value(rng, vars_ok)
 
@@ -491,8 +502,8 @@ def d_oracle(c, o):
     fails = []
     if o["k"] in ("panic", "other"):
         return ["resolver %s: %s" % (o["k"], o.get("m", ""))], None
-    if o.get("ms", 0) > 10000:
-        fails.append("resolver call took %d ms" % o["ms"])
+    if o.get("cpu_ms", 0) > 10000:
+        fails.append("resolver call used %d ms of CPU time" % o["cpu_ms"])
     vars = doc_vars(c["name"] if c["iface"] else None, c["file"], c["pkgname"], c["pkgpath"], c["params"]["structname"],
                     c["template"], c["config"], c["abs_cd"], c["cwd"])
     if uses_idr(c["params"]) and c["iface"] and vars["InterfaceDirRelative"] is None:
@@ -525,6 +536,30 @@ def d_oracle(c, o):
     return fails, None
 
 
+def self_refs(params):
+    return params["structname"].count(".StructName")
+
+
+def run_growth_witness(ctx, c, mem_kb=4000000, timeout=90):
+    """One resolver call in its own process under an address-space limit (the value would need tens of GB).
+    -> normalised symptom"""
+    try:
+        p = run(["bash", "-c", "ulimit -v %d; exec %s" % (mem_kb, ctx.bins["drv_tmpl"])],
+                inp=json.dumps([d_json(c)]).encode(), timeout=timeout)
+    except subprocess.TimeoutExpired:
+        return "hang"
+    err = p.stderr.decode(errors="replace")
+    if p.returncode != 0:
+        return "oom-crash" if "out of memory" in err else "crash:" + err[-200:]
+    try:
+        o = json.loads(p.stdout)[0]
+    except Exception:
+        return "unreadable"
+    if o.get("cpu_ms", 0) > 10000:
+        return "slow"
+    return "error-" + o["k"] if o["k"] != "ok" else "ok"
+
+
 # ------------------------------------------------------------------ binary stream
 GO_MOD = "module example.com/m\n\ngo 1.23\n\nrequire github.com/stretchr/testify v1.10.0\n"
 PROBE = "package {{.PkgName}}\n{{range .Interfaces}}\n// VERIF-MOCK {{.StructName}} {{.Name}}\ntype {{.StructName}} struct{}\n{{end}}\n"
@@ -532,7 +567,8 @@ SCHEMA = '{"$schema":"http://json-schema.org/draft-07/schema#","type":"object"}\
 B_DIR = ["{{.ConfigDir}}/out", "{{.InterfaceDir}}/mocks", "{{.InterfaceDir}}", "mocks/{{.SrcPackagePath}}",
          "{{.ConfigDir}}/mocks/{{.SrcPackageName}}", "out/{{.InterfaceName | lower}}", "{{.ConfigDir}}/gen/{{.StructName}}",
          "{{.InterfaceFile | dir}}/gen", "{{.InterfaceFile | dir | base}}_mocks", "{{ .ConfigDir }}/{{ .SrcPackagePath | base }}/mk",
-         "{{.ConfigDir | clean}}/a/../b", "{{.ConfigDir}}", "{{.ConfigDir}}/{{.InterfaceDir | base}}", "m_{{.Template}}"]
+         "{{.ConfigDir | clean}}/a/../b", "{{.ConfigDir}}", "{{.ConfigDir}}/{{.InterfaceDir | base}}", "m_{{.Template}}",
+         "{{.ConfigDir}}/m/gen", "{{.ConfigDir}}/m/{{.SrcPackageName}}/mocks"]
 B_DIR_IDR = ["{{.InterfaceDirRelative}}/mk", "gen/{{.InterfaceDirRelative}}", "{{.ConfigDir}}/o/{{.InterfaceDirRelative}}"]
 B_FILE = ["mock_{{.InterfaceName}}.go", "mocks_test.go", "{{.InterfaceName | lower}}_mock.go", "{{.StructName}}.go",
           "{{.InterfaceFile | base | trimSuffix \".go\"}}_{{.InterfaceName}}_mock.go", "{{.Mock}}s.go", "m_{{.SrcPackageName}}.go"]
@@ -541,7 +577,7 @@ B_PKG = ["{{.SrcPackageName}}", "mocks", "{{.SrcPackageName}}_mocks", "{{.SrcPac
 B_STRUCT = ["{{.Mock}}{{.InterfaceName}}", "{{.InterfaceName}}{{.Mock}}", "Fake{{.InterfaceName | upper}}",
             "{{.Mock}}{{.InterfaceName | trimPrefix \"I\"}}", "{{.SrcPackageName | upper}}{{.InterfaceName}}Mock",
             "{{.Mock}}_{{.InterfaceName}}", "{{.InterfaceName | trimSuffix \"er\"}}Double", "{{.Mock | upper}}{{.InterfaceName}}"]
-B_SELF = ["{{.StructName}}x", "x{{.StructName}}", "{{.StructName}}{{.StructName}}", "M{{.StructName | base}}"]
+B_SELF = ["{{.StructName}}x", "x{{.StructName}}", "M{{.StructName | base}}x", "{{.StructName | trimPrefix \"x\"}}_"]
 B_NAMES_EXP = ["Foo", "IFoo", "Reader", "HTTPClient", "\xc3\x89clair"]
 B_NAMES_UNEXP = ["foo", "bar", "reader", "iThing", "\xc3\xa9clair"]
 IDENT = re.compile(r"^[^\W\d]\w*$")
@@ -595,7 +631,7 @@ def gen_bcase(rng, idx, want=None):
     probe = rng.random() < 0.3
     same_dir = (cfgdir == cwd)
     # parameters
-    idr_ok = want.get("idr", False)
+    idr_ok = want.get("idr", False) or (mode != "none" and rng.random() < 0.12)   # outside the witness stream only kept when cwd = config dir
     params, kinds = {}, {}
     for k, pool in (("dir", B_DIR), ("filename", B_FILE), ("pkgname", B_PKG), ("structname", B_STRUCT)):
         r = rng.random()
@@ -691,7 +727,8 @@ def b_sane(c, R):
         return e[0] == "fail"
     per = e[1]
     for path, pkg, sn, _ in per:
-        if not path.startswith(R + "/") or not SAFE_PATH.match(path) or not path.endswith(".go"):
+        # mockery needs the output directory to be inside a Go module
+        if not path.startswith(R + "/m/") or not SAFE_PATH.match(path) or not path.endswith(".go"):
             return False
         if not IDENT.match(real(pkg)) or not IDENT.match(real(sn)) or not ascii_only(pkg):
             return False
@@ -735,17 +772,30 @@ def b_sane_cwd_reading(c, R):
         per = b_expect_cwd_reading(c, R)
     except TUnsup:
         return False
-    return bool(per) and all(p.startswith(R + "/") and SAFE_PATH.match(p) for p, _, _, _ in per) and set(per) != set(b_expect(c, R)[1])
+    return bool(per) and all(p.startswith(R + "/m/") and SAFE_PATH.match(p) for p, _, _, _ in per) and set(per) != set(b_expect(c, R)[1])
 
 
-def d_in_subset(c):
-    """The oracle (and the model) can judge the case: nothing outside the modelled template subset."""
+def d_in_subset(c, maxlen=2500):
+    """The oracle and the model can judge the case: nothing outside the modelled template subset, and no
+    value that explodes in size (k references to itself grow like k^20; evaluated inside Coq that is too big)."""
     vars = doc_vars(c["name"] if c["iface"] else None, c["file"], c["pkgname"], c["pkgpath"], c["params"]["structname"],
                     c["template"], c["config"], c["abs_cd"], c["cwd"])
     if vars.get("InterfaceDirRelative") is None:
         vars["InterfaceDirRelative"] = "."
     try:
         o_judge(vars, c["params"])
+        for k in PARAMS:
+            t = c["params"][k]
+            for _ in range(CAP + 1):
+                if len(t) > maxlen:
+                    return False
+                try:
+                    n = o_render(t, vars)
+                except (TParse, TExec):
+                    break
+                if n == t:
+                    break
+                t = n
     except TUnsup:
         return False
     return True
@@ -858,7 +908,7 @@ def b_oracle(c, R, exp, obs):
     if obs["rc"] != 0:
         if exp[0] == "either":
             return [], None
-        return ["expected mocks %r; exit %s: %s" % ([(p, s) for p, _, s, _ in exp[1]], obs["rc"], obs["tail"][-400:])], "exit1"
+        return ["expected mocks %r; exit %s: %s" % ([(p, real(s)) for p, _, s, _ in exp[1]], obs["rc"], obs["tail"][-400:])], "exit1"
     got = {(f["path"], f["pkg"], s, i) for f in obs["files"] for s, i in f["mocks"]}
     want = set(exp[1])
     if got != want:
@@ -958,7 +1008,8 @@ def corpus_b():
                             "cfgpath": "m/.mockery.yml", "decoys": [], "relspell": "plain", "probe": False, "level": "root", "listed": False,
                             "params": dict(DEFAULTS, dir="{{.ConfigDir}}/out", filename="mock_{{.InterfaceName}}.go"),
                             "kinds": {k: "corpus" for k in PARAMS}}, **kw)
-    out = [mk(), mk(names=["Foo", "bar"]), mk(cfgpath=".mockery.yaml"), mk(cwd="m", cfgpath="m/.mockery.yml"),
+    out = [mk(), mk(names=["Foo", "bar"]), mk(cwd="m", cfgpath="m/.mockery.yml"),
+           mk(cfgpath=".mockery.yaml", params=dict(DEFAULTS, dir="{{.ConfigDir}}/m/out", filename="mock_{{.InterfaceName}}.go")),
            mk(mode="flag_rel"), mk(mode="env_abs", cfgpath="m/conf/cfg.yml"),
            mk(params=dict(DEFAULTS, structname="{{.StructName}}x")),
            mk(cwd="m", params=dict(DEFAULTS, dir="{{.InterfaceDirRelative}}/mk", filename="mock_{{.InterfaceName}}.go"))]
@@ -975,6 +1026,7 @@ def check(ctx, only=None):
         ctx.write_evidence(gate, 0, 0, "build failed", [])
         return
     known = load_known("C11")
+    dbg("built")
     root = str(ctx.scratch / "d")
     for d in DIRS:
         os.makedirs(root + "/" + d, exist_ok=True)
@@ -987,8 +1039,12 @@ def check(ctx, only=None):
         dcases = corpus_d(root)
         while len(dcases) < nd:
             c = gen_dcase(ctx.rng, root)
-            if d_in_subset(c):
+            if d_in_subset(c) and self_refs(c["params"]) < 3:
                 dcases.append(c)
+        # a value that doubles in every pass (2^20 times its size at the cap): implementation and oracle only
+        g = dict(corpus_d(root)[0], params=dict(DEFAULTS, structname="{{.StructName}}{{.StructName}}"), nocoq=True)
+        dcases.append(g)
+        dbg("dcases", len(dcases))
         R0 = str(ctx.scratch / "b" / "c0" / "top")
         in_class = lambda c: b_in_idr_class(c, R0)
         bcases, witnesses_b = [c for c in corpus_b() if not in_class(c)], [c for c in corpus_b() if in_class(c)]
@@ -998,6 +1054,7 @@ def check(ctx, only=None):
             c = gen_bcase(ctx.rng, i)
             if not in_class(c) and b_sane(c, R0):       # the main stream stays outside the known-finding class
                 bcases.append(c)
+        dbg("bcases", len(bcases), "draws", i)
         # witness stream for the known finding: InterfaceDirRelative with working directory <> config directory
         for kf in known:
             if kf.get("witness", {}).get("bcase"):
@@ -1008,10 +1065,10 @@ def check(ctx, only=None):
             c = gen_bcase(ctx.rng, 100000 + tries, want={"idr": True})
             c["names"] = c["names"][:1]
             P = b_paths(c, R0)
-            if in_class(c) and b_sane(c, R0) and b_sane_cwd_reading(c, R0):
+            if in_class(c) and b_sane(c, R0) and b_expect(c, R0)[0] == "ok" and b_sane_cwd_reading(c, R0):
                 witnesses_b.append(c)
 
-    violations_before = len(ctx.violations)
+    dbg("witnesses", len(witnesses_b))
     # ---------------- driver stream
     outs, secs = run_driver(ctx, dcases) if dcases else ([], 0)
     if outs is None:
@@ -1020,16 +1077,22 @@ def check(ctx, only=None):
         ctx.violation(rp)
         outs = []
         dcases = []
+    dbg("driver done", secs)
     d_fail = {}
     for i, (c, o) in enumerate(zip(dcases, outs)):
         f, _ = d_oracle(c, o)
         if f:
             d_fail[i] = f
-    d_terms = [dcase_term(c, o) for c, o in zip(dcases, outs)]
+    d_terms = [dcase_term(c, o) for c, o in zip(dcases, outs) if not c.get("nocoq")]
+    d_index = [i for i, c in enumerate(dcases) if not c.get("nocoq")]
     d_bad, d_errs = coq_mismatches(ctx, MODH, d_terms) if d_terms else ([], [])
     d_uns, e2 = coq_mismatches(ctx, MODH, d_terms, check="unsupported") if d_terms else ([], [])
     d_errs += e2
+    d_gcls, e4 = coq_mismatches(ctx, MODH, d_terms, check="growth_class") if d_terms else ([], [])
+    d_errs += e4
+    py_gcls = [j for j, i in enumerate(d_index) if self_refs(dcases[i]["params"]) >= 3]
 
+    dbg("coq d done", len(d_bad), len(d_uns), d_errs[:1])
     # ---------------- binary stream
     allb = [(c, False) for c in bcases] + [(c, True) for c in witnesses_b]
 
@@ -1043,7 +1106,25 @@ def check(ctx, only=None):
         schema = exp[2] if exp[0] in ("ok", "either") else None
         obs = b_run(ctx, c, R, schema)
         return R, exp, obs
+    growth = None
+    kf_g = [x for x in known if x["id"] == "C11-exponential-self-reference"]
+    if kf_g and only is None:
+        gw = dict(corpus_d(root)[0], params=dict(DEFAULTS, structname=kf_g[0]["witness"]["structname"]))
+        from concurrent.futures import ThreadPoolExecutor as _TPE
+        _ex = _TPE(max_workers=1)
+        growth = _ex.submit(run_growth_witness, ctx, gw)
     bres = pmap(one, range(len(allb)))
+    if growth is not None:
+        sym = growth.result()
+        _ex.shutdown()
+        dbg("growth witness", sym)
+        if re.fullmatch(kf_g[0]["symptom"], sym):
+            ctx.known("structname mentioning itself 3 times grows like 3^passes: the resolver process ends with '%s' under a 4 GB address-space limit instead of reporting the infinite loop" % sym)
+        else:
+            rp = ctx.write_replay("growth-witness", {"what": "known finding C11-exponential-self-reference: expected symptom %s, observed '%s'" % (kf_g[0]["symptom"], sym),
+                                                     "case": d_replay(gw, root)})
+            ctx.violation(rp)
+    dbg("runs done")
     b_fail, b_terms, b_known = {}, [], []
     for k, ((c, wit), (R, exp, obs)) in enumerate(zip(allb, bres)):
         f, sym = b_oracle(c, R, exp, obs)
@@ -1103,11 +1184,12 @@ def check(ctx, only=None):
     any_oracle = bool(d_fail or b_fail)
     if not gate["ok"] and not any_oracle:
         ctx.violation(gate["replay"], nofail=True)
-    if (d_bad or d_errs or d_uns or b_bad or b_errs or sorted(b_cls) != sorted(py_cls)) and not any_oracle:
+    if (d_bad or d_errs or d_uns or b_bad or b_errs or sorted(b_cls) != sorted(py_cls) or sorted(d_gcls) != sorted(py_gcls)) and not any_oracle:
         ex = []
-        for i in d_bad[:3]:
+        for j in d_bad[:3]:
+            i = d_index[j]
             ex.append({"case": d_replay(dcases[i], root), "observed": outs[i],
-                       "model": coq_show(ctx, MODH, "d_model (%s)" % d_terms[i], name="show_d%d" % i)})
+                       "model": coq_show(ctx, MODH, "d_model (%s)" % d_terms[j], name="show_d%d" % i)})
         for k in b_bad[:3]:
             ex.append({"bcase": allb[k][0], "readable": b_describe(allb[k][0], bres[k][0], bres[k][2], bres[k][1]),
                        "model": coq_show(ctx, MODH, "b_model (%s)" % b_terms[k], name="show_b%d" % k)})
@@ -1115,7 +1197,7 @@ def check(ctx, only=None):
             "what": "model Cfg/Tmpl.v and the implementation disagree; the documentation oracle found no failing input among %d resolver calls and %d runs" % (len(dcases), len(allb)),
             "obligation": "correspondence Harness/C11.v check_dcase (five resolved values / error class) and check_bcase (output file, package clause, struct name, exit class); guard agreement idr_class",
             "resolver_mismatches": len(d_bad), "run_mismatches": len(b_bad), "outside_subset": len(d_uns),
-            "guard_disagreement": sorted(set(b_cls) ^ set(py_cls))[:10], "coq_errors": (d_errs + b_errs)[:3], "examples": ex})
+            "guard_disagreement": sorted(set(b_cls) ^ set(py_cls))[:10], "growth_guard_disagreement": sorted(set(d_gcls) ^ set(py_gcls))[:10], "coq_errors": (d_errs + b_errs)[:3], "examples": ex})
         ctx.violation(rp, nofail=True)
 
     # ---------------- evidence
